@@ -42,6 +42,11 @@ pub fn sym<A: Cx>(code: u8) -> A {
 /// raises an alarm about a clause that belongs to another property.
 pub static CANON: std::sync::atomic::AtomicBool = std::sync::atomic::AtomicBool::new(false);
 
+/// set once the library under test has panicked in this process: from then on the driver's own
+/// preconditions (a register it expected to be filled, a length it relied on) may fail as a CONSEQUENCE;
+/// the recorded trace up to that point is what gets judged, so the driver then stops quietly
+pub static LIB_PANICKED: std::sync::atomic::AtomicBool = std::sync::atomic::AtomicBool::new(false);
+
 pub fn canon_scenario(name: &str) -> bool {
     let name = name.strip_prefix("long_").unwrap_or(name);
     let name = name.strip_prefix("sweep_").unwrap_or(name);
@@ -280,9 +285,14 @@ impl<A: Cx> World<A> {
                     String::new()
                 };
                 if msg.starts_with("harness:") {
+                    if LIB_PANICKED.load(std::sync::atomic::Ordering::Relaxed) {
+                        eprintln!("driver stops: {msg} (after an earlier panic of the library under test)");
+                        std::process::exit(0);
+                    }
                     eprintln!("HARNESS ERROR: {msg} in {op}");
                     std::process::exit(2);
                 }
+                LIB_PANICKED.store(true, std::sync::atomic::Ordering::Relaxed);
                 panic_obs()
             }
         }
